@@ -213,9 +213,16 @@ func Reload(v *vrt.Ctx) {
 // MapScope: MAP exposes a value to the template only until the next move,
 // whichever instruction makes the move.
 func MapScope(v *vrt.Ctx) {
-	w := newWorld(v, 1, 0)
-	how := v.Choice("moved-by", 3)
+	how := v.Choice("moved-by", 4) // 3: no move at all, execution resumes after the HALT and stops again
+	outSize := uint32(0)
+	if how == 3 {
+		outSize = 200 // a sink needs an output size
+	}
+	w := newWorld(v, 1, outSize)
 	sameRun := v.Choice("move-in-the-same-run", 2) == 1
+	if how == 3 {
+		v.Assume(!sameRun)
+	}
 	v.Finding("F20-catch-move-keeps-mapping", v.And(how == 2, sameRun))
 	var mv []byte
 	switch how {
@@ -226,14 +233,36 @@ func MapScope(v *vrt.Ctx) {
 		mv = app.Code().InCmp("other", "1").Bytes()
 	case 2:
 		mv = app.Code().Catch("other", 8, false).Bytes()
+	case 3:
+		w.st.SetInput([]byte("1"))
+		w.rs.Funcs["g"] = app.Static("second")
+		mv = app.Code().Load("g", 0).Map("g").Halt().Bytes()
 	}
 	first := append(loadLine(100), app.Code().Map("f").Bytes()...)
+	if how == 3 {
+		// both symbols are sinks (declared size 0): a page has room for one
+		first = append(loadLine(0), app.Code().Map("f").Bytes()...)
+	}
 	if sameRun {
 		v.Assume(w.run(append(first, mv...)) == nil)
 	} else {
 		v.Assume(w.run(append(first, app.Code().Halt().Bytes()...)) == nil)
+		if how == 3 {
+			v.Assume(len(w.last) > 0 && len(w.last) < 100)
+		}
 		out, err := w.vmi.Render(w.ctx)
 		v.Assert(v.And(err == nil, out == "root "+w.last), "C05/map-exposes-the-value")
+		if how == 3 {
+			// mappings are dropped on resume as well: the code after the HALT
+			// starts with a page that exposes nothing, so it can map another
+			// sink symbol and the page shows that one only
+			w.rs.Nodes["root"].Tpl = "root {{.g}}"
+			v.Assert(w.run(mv) == nil, "C05/mapping-ends-on-resume")
+			out, err := w.vmi.Render(w.ctx)
+			v.Assert(v.And(err == nil, out == "root second"), "C05/mapping-ends-on-resume")
+			v.Cover("C05/mapscope-resume")
+			return
+		}
 		v.Assume(w.run(mv) == nil)
 	}
 	v.Assume(len(w.st.ExecPath) == 2)
